@@ -84,7 +84,9 @@ def seqs(draw, depth=0):
             items.append({'do': 'block', 'exit': draw(st.sampled_from(['normal', 'normal', 'exception'])),
                           'body': draw(seqs(depth + 1))})
         else:
-            items.append({'do': 'decorated', 'spec': draw(hc_spec()), 'exit': draw(st.sampled_from(['normal', 'exception']))})
+            items.append({'do': 'decorated', 'spec': draw(hc_spec()), 'exit': draw(st.sampled_from(['normal', 'exception'])),
+                          # a decorated function may call further decorated functions / open blocks
+                          'body': draw(seqs(depth + 1)) if depth < 2 and draw(st.booleans()) else []})
     return items
 
 
@@ -159,7 +161,7 @@ def apply_breach(spec, b):
             f['attrs']['index_type'] = {'v': 'BOREHOLE-DEPTH', 'r': 'kw'}
         else:
             vals = (np.arange(rows) * 0.5).astype('<f8')
-            f['attrs']['index_type'] = {'v': 'MY-OWN-INDEX', 'r': 'kw'}
+            f['attrs']['index_type'] = {'v': ('MY-OWN-INDEX', 'BOREHOLE_DEPTH', 'NON_STANDARD')[sel % 3], 'r': 'kw'}
         ops[j]['data'] = model.array_spec_from(vals)
         ops[j].pop('cast', None)
         f['attrs'].pop('spacing', None)
@@ -167,13 +169,13 @@ def apply_breach(spec, b):
             # a spacing given by the user does not make the index uniform: the mode must still reject the frame
             f['attrs']['spacing'] = {'v': 0.5, 'r': 'kw'}
     elif k == 'unit':
-        ops[chans[sel % len(chans)]]['attrs']['units'] = {'v': 'furlong', 'r': 'kw'}
+        ops[chans[sel % len(chans)]]['attrs']['units'] = {'v': ('furlong', 'METER', 'DEGREE_CELSIUS')[sel % 3], 'r': 'kw'}
     elif k == 'attr-unit':
-        ops.append({'t': 'equipment', 'name': 'EQ-UNIT', 'attrs': {'height': {'v': 2.5, 'u': 'cubit', 'r': 'dict'}}})
+        ops.append({'t': 'equipment', 'name': 'EQ-UNIT', 'attrs': {'height': {'v': 2.5, 'u': ('cubit', 'FOOT', 'INCH')[sel % 3], 'r': 'dict'}}})
     elif k == 'eq-type':
-        ops.append({'t': 'equipment', 'name': 'EQ-TYPE', 'attrs': {'eq_type': {'v': 'Gizmo', 'r': 'kw'}}})
+        ops.append({'t': 'equipment', 'name': 'EQ-TYPE', 'attrs': {'eq_type': {'v': ('Gizmo', 'TOOL', 'DEPTH_DEVICE')[sel % 3], 'r': 'kw'}}})
     elif k == 'eq-location':
-        ops.append({'t': 'equipment', 'name': 'EQ-LOC', 'attrs': {'location': {'v': 'Moon', 'r': 'kw'}}})
+        ops.append({'t': 'equipment', 'name': 'EQ-LOC', 'attrs': {'location': {'v': ('Moon', 'LOGGING_SYSTEM', 'RIG')[sel % 3], 'r': 'kw'}}})
 
 
 def draw_signed(sel):
@@ -448,6 +450,10 @@ class C17(Property):
                         if not flag():
                             viol.append(Violation('flag-not-set-in-context/decorator', 'flag False in decorated function'))
                         do_write(it['spec'], True)
+                        if it.get('body'):
+                            stats['nested'] = True
+                            labels.add('decorated-calls-nested')
+                            run_seq(it['body'], True, depth + 1)
                         if it['exit'] == 'exception':
                             stats['exc_exit'] = True
                             raise Boom()
@@ -479,7 +485,7 @@ def summarize(seq):
         elif it['do'] == 'block':
             out.append({'block:' + it['exit']: summarize(it['body'])})
         else:
-            out.append('dec:' + it['exit'] + '[' + ','.join(b['k'] for b in it['spec'].get('breaches', [])) + ']')
+            out.append({'dec:' + it['exit'] + '[' + ','.join(b['k'] for b in it['spec'].get('breaches', [])) + ']': summarize(it.get('body') or [])})
     return out
 
 
